@@ -1697,6 +1697,7 @@ func (g *v6Gen) history(steps int, schedules bool) {
 				regDoc(dB, spB.prevs[0], "doc", [][2]any{{spB.kid, spB.signer}})
 			}
 			cA := offer(spA, g.rnd.Intn(2), "rollback-window:A(rolled back)")
+			siA, sigA := g.lastSi, g.lastSig
 			cB := offer(spB, g.rnd.Intn(2), "rollback-window:B(sibling in the window)")
 			line := g.emit(v6Op{Op: "rbwin", Calls: []v6Call{cA, cB}, Note: "rollback-window"})
 			if strings.Contains(line, " resB=ok ") {
@@ -1706,6 +1707,7 @@ func (g *v6Gen) history(steps int, schedules bool) {
 			if g.rnd.Intn(2) == 0 {
 				cA.Note = "after-rollback-window"
 				if strings.HasPrefix(g.emit(v6Op{Op: "add", Call: &cA}), "r=ok") {
+					g.lastSi, g.lastSig = siA, sigA // what admit() records for later re-encodings must be A's own signed content
 					admit(spA, cA, "")
 				}
 			}
